@@ -56,6 +56,9 @@ class ProxyCursorConn:
             # like SQLite on SQLITE_IOERR / SQLITE_FULL: the statement fails and the open transaction is rolled back
             self.real.rollback()
             raise sqlite3.OperationalError('disk I/O error (simulated)')
+        if f == 'busy':
+            # like SQLITE_BUSY / "database is locked": only this statement fails, the open transaction stays open
+            raise sqlite3.OperationalError('database is locked (simulated)')
         if f == 'crash':
             raise SimCrash()
 
@@ -106,6 +109,8 @@ class FaultyFile:
         f = self.st.tick('file-write', os.path.basename(self.path)[:12])
         if f is None:
             return self.real.write(data)
+        if f == 'busy':
+            raise OSError(errno.EAGAIN, 'Resource temporarily unavailable (simulated)')     # nothing written
         self.real.write(data[:len(data) // 2])        # torn write: half of the bytes reach the disk
         self.real.flush()
         if f == 'crash':
@@ -133,7 +138,7 @@ class FakeOsForTpm:
 
     def remove(self, path):
         f = self.st.tick('file-remove', os.path.basename(path)[:12])
-        if f == 'error':
+        if f in ('error', 'busy'):
             raise OSError(errno.EIO, 'Input/output error (simulated)')
         if f == 'crash':
             raise SimCrash()
@@ -618,9 +623,17 @@ class Runner:
                 raise KeyError('no such key (harness)')
             kc[Name.from_bytes(i)][Name.from_bytes(o['_key'])].set_default_cert(Name.from_bytes(o['_cert']))
         elif k == 'del_cert':
-            kc.del_cert(Name.from_bytes(o['_cert']))
+            i, kn, _kr = _find_cert(w.model, o['_cert']) if o.get('via_view') and o.get('_cert') else (None, None, None)
+            if kn is not None:
+                kc[Name.from_bytes(i)][Name.from_bytes(kn)].del_cert(Name.from_bytes(o['_cert']))      # through the Key view
+            else:
+                kc.del_cert(Name.from_bytes(o['_cert']))
         elif k == 'del_key':
-            kc.del_key(Name.from_bytes(o['_key']))
+            i, _rec = _find_key(w.model, o['_key']) if o.get('via_view') and o.get('_key') else (None, None)
+            if i is not None:
+                kc[Name.from_bytes(i)].del_key(Name.from_bytes(o['_key']))                             # through the Identity view
+            else:
+                kc.del_key(Name.from_bytes(o['_key']))
         elif k == 'del_identity':
             kc.del_identity(o['_id'])
         else:
@@ -785,6 +798,15 @@ class Runner:
                         w.certs_created.append(cn)
         if getattr(final, 'orphans', None):
             self.viol('orphan-rows', o['op'], f'{where}; after repeating it rows without owner remain: {final.orphans[:3]}')
+        # a key the store lists must be usable: once the interrupted operation has been repeated (completed or cleanly
+        # refused) no listed key may lack its private key - unless it lacked it before this operation already
+        pre_keys_all = {kn for rec in pre.ids.values() for kn in rec['keys']}
+        for rec in final.ids.values():
+            for kn in rec['keys']:
+                if kn not in final.priv and not (kn in pre_keys_all and kn not in pre.priv):
+                    self.viol('key-without-private-key', o['op'],
+                              f'{where}; after repeating it ({"refused: " + exc_brief(rep_err) if rep_err else "completed"}) the store '
+                              f'lists key {_s(kn)} but its private key does not exist')
         self.check_views(f'after faulted op #{idx} {o["op"]} and its repetition')
 
     def names_from(self, final, pre, o):
@@ -1070,6 +1092,10 @@ def verify_sig(bits, styp, signed, sig):
         if styp == 1:
             pkcs1_15.new(RSA.import_key(bits)).verify(h, sig)
             return True
+        if styp == 5:
+            from Cryptodome.Signature import eddsa
+            eddsa.new(ECC.import_key(bits), 'rfc8032').verify(bytes(signed), bytes(sig))
+            return True
     except (ValueError, TypeError):
         return False
     return False
@@ -1128,7 +1154,7 @@ def execute(sc, keep_events=False):
     stats['kc.storage_steps'] += K
     points = sc.get('points')
     if points is None:
-        points = [[k, kind] for k in range(1, K + 1) for kind in ('error', 'crash')]
+        points = [[k, kind] for k in range(1, K + 1) for kind in ('error', 'busy', 'crash')]
         if len(points) > MAX_POINTS:
             stride = len(points) / MAX_POINTS
             points = [points[int(i * stride)] for i in range(MAX_POINTS)]
@@ -1198,9 +1224,9 @@ def generate(rng, seed, tier='quick'):
             else:
                 ops.append({'op': 'set_default_cert', 'cert': rng.randint(0, 9)})
         elif x < 0.66:
-            ops.append({'op': 'del_cert', 'cert': rng.randint(0, 9)})
+            ops.append({'op': 'del_cert', 'cert': rng.randint(0, 9), 'via_view': rng.random() < 0.4})
         elif x < 0.72:
-            ops.append({'op': 'del_key', 'key': rng.randint(0, 7)})
+            ops.append({'op': 'del_key', 'key': rng.randint(0, 7), 'via_view': rng.random() < 0.4})
         elif x < 0.77:
             ops.append({'op': 'del_identity', 'id': rng.choice(ids)})
         elif x < 0.93:
@@ -1227,7 +1253,7 @@ def simplifications(sc):
         except Exception:
             return
         for k in range(1, r0.steps + 1):
-            for kind in ('error', 'crash'):
+            for kind in ('error', 'busy', 'crash'):
                 c = copy.deepcopy(sc)
                 c['points'] = [[k, kind]]
                 yield c
